@@ -174,3 +174,124 @@ Example C04_example :
   | Err _ => False
   end.
 Proof. vm_compute. split; reflexivity. Qed.
+
+(* ------------------------------------------------------------------------------------------------------
+   Added in build session 4 (statements re-stated from the proof files by harness tooling; each is closed by
+   exact). *)
+From SplipyModel Require Import Proofs.ObjEval Proofs.SeamContinuity Proofs.PeriodicInsert.
+Open Scope R_scope.
+Theorem C04_periodic_boehm :
+  forall K : nat -> R,
+         sorted K ->
+         forall (q n : nat) (T : R),
+         (forall i : nat, K (i + n)%nat = K i + T) ->
+         forall c : nat -> R,
+         (forall i : nat, c (i + n)%nat = c i) ->
+         forall (mu : nat) (x : R),
+         (q < mu <= n)%nat ->
+         K (mu - 1)%nat <= x < K mu ->
+         forall (side : bool) (t : R) (a N N' : nat),
+         (mu + a * n <= N)%nat ->
+         (mu + a * (n + 1) + 1 <= N')%nat ->
+         before_end side t (K (mu + a * n)%nat) ->
+         sumf (fun i : nat => c i * B side K q i t) 0 N =
+         sumf (fun i : nat => cp K q n c mu x i * B side (Kp K n T mu x) q i t) 0 N'.
+Proof. exact @periodic_boehm. Qed.
+Print Assumptions C04_periodic_boehm.
+
+Theorem C04_periodic_boehm_exact :
+  forall K : nat -> R,
+         sorted K ->
+         forall (q n : nat) (T : R),
+         (forall i : nat, K (i + n)%nat = K i + T) ->
+         forall c : nat -> R,
+         (forall i : nat, c (i + n)%nat = c i) ->
+         forall (mu : nat) (x : R),
+         (q < mu <= n)%nat ->
+         K (mu - 1)%nat <= x < K mu ->
+         forall (side : bool) (t : R) (a : nat),
+         sumf (fun i : nat => c i * B side K q i t) 0 (mu + a * n) =
+         sumf (fun i : nat => cp K q n c mu x i * B side (Kp K n T mu x) q i t) 0 (mu + a * (n + 1) + 1).
+Proof. exact @periodic_boehm_exact. Qed.
+Print Assumptions C04_periodic_boehm_exact.
+
+Theorem C04_basis_insert_knot_periodic :
+  forall (k : list R) (p per1 n : nat) (T x : R),
+         per_canon k p per1 n T ->
+         b_start {| b_order := p; b_knots := k; b_per1 := per1 |} <= x <
+         b_end {| b_order := p; b_knots := k; b_per1 := per1 |} ->
+         let mu := py_bisect_right k x in
+         let C := mat_of_writes (n + 1) n (insert_writes k p n mu x) in
+         exists knew : list R,
+           basis_insert_knot {| b_order := p; b_knots := k; b_per1 := per1 |} x =
+           Ok ({| b_order := p; b_knots := knew; b_per1 := per1 |}, C) /\
+           per_canon knew p per1 (n + 1) T /\
+           b_start {| b_order := p; b_knots := knew; b_per1 := per1 |} =
+           b_start {| b_order := p; b_knots := k; b_per1 := per1 |} /\
+           b_end {| b_order := p; b_knots := knew; b_per1 := per1 |} =
+           b_end {| b_order := p; b_knots := k; b_per1 := per1 |} /\
+           firstn (n + 1) (skipn per1 knew) = insert_at (firstn n (skipn per1 k)) (mu - per1) x /\
+           (forall (side : bool) (t : R),
+            after_start side (b_start {| b_order := p; b_knots := k; b_per1 := per1 |}) t ->
+            before_end side t (b_end {| b_order := p; b_knots := k; b_per1 := per1 |}) ->
+            row_rel (ref_row side k p per1 0 t) (ref_row side knew p per1 0 t) C).
+Proof. exact @basis_insert_knot_periodic. Qed.
+Print Assumptions C04_basis_insert_knot_periodic.
+
+Theorem C04_basis_insert_knot_periodic_interior :
+  forall (k : list R) (p per1 n : nat) (T x : R),
+         per_canon k p per1 n T ->
+         kn k (p + per1 - 1) <= x < kn k n ->
+         let mu := py_bisect_right k x in
+         let C := mat_of_writes (n + 1) n (insert_writes k p n mu x) in
+         basis_insert_knot {| b_order := p; b_knots := k; b_per1 := per1 |} x =
+         Ok ({| b_order := p; b_knots := insert_at k mu x; b_per1 := per1 |}, C) /\
+         per_canon (insert_at k mu x) p per1 (n + 1) T /\
+         (forall (side : bool) (t : R),
+          row_rel (ref_row side k p per1 0 t) (ref_row side (insert_at k mu x) p per1 0 t) C).
+Proof. exact @basis_insert_knot_periodic_interior. Qed.
+Print Assumptions C04_basis_insert_knot_periodic_interior.
+
+Theorem C04_insert_knot_periodic_interior_preserves_map :
+  forall (k : list R) (p per1 n : nat) (T x : R),
+         per_canon k p per1 n T ->
+         kn k (p + per1 - 1) <= x < kn k n ->
+         let mu := py_bisect_right k x in
+         forall (dim c : nat) (side : bool) (t : R) (rows : list (list R)) (d : nat) (cps : list (list R)),
+         (d < length rows)%nat ->
+         (c < dim)%nat ->
+         nth d rows [] = ref_row side k p per1 0 t ->
+         net_ok dim rows cps ->
+         (0 < prodl (map (length (A:=R)) rows))%nat ->
+         coord c
+           (teval dim (upd rows d (ref_row side (insert_at k mu x) p per1 0 t))
+              (apply_dir dim (map (length (A:=R)) rows) d (mat_of_writes (n + 1) n (insert_writes k p n mu x)) cps)) =
+         coord c (teval dim rows cps).
+Proof. exact @insert_knot_periodic_interior_preserves_map. Qed.
+Print Assumptions C04_insert_knot_periodic_interior_preserves_map.
+
+Theorem C04_insert_knot_periodic_preserves_map :
+  forall (k : list R) (p per1 n : nat) (T x : R) (b' : basis R) (C : list (list R)),
+         per_canon k p per1 n T ->
+         b_start {| b_order := p; b_knots := k; b_per1 := per1 |} <= x <
+         b_end {| b_order := p; b_knots := k; b_per1 := per1 |} ->
+         basis_insert_knot {| b_order := p; b_knots := k; b_per1 := per1 |} x = Ok (b', C) ->
+         forall (dim c : nat) (side : bool) (t : R) (rows : list (list R)) (d : nat) (cps : list (list R)),
+         after_start side (b_start {| b_order := p; b_knots := k; b_per1 := per1 |}) t ->
+         before_end side t (b_end {| b_order := p; b_knots := k; b_per1 := per1 |}) ->
+         (d < length rows)%nat ->
+         (c < dim)%nat ->
+         nth d rows [] = ref_row side k p per1 0 t ->
+         net_ok dim rows cps ->
+         (0 < prodl (map (length (A:=R)) rows))%nat ->
+         coord c
+           (teval dim (upd rows d (ref_row side (b_knots b') (b_order b') (b_per1 b') 0 t))
+              (apply_dir dim (map (length (A:=R)) rows) d C cps)) = coord c (teval dim rows cps).
+Proof. exact @insert_knot_periodic_preserves_map. Qed.
+Print Assumptions C04_insert_knot_periodic_preserves_map.
+
+Theorem C04_periodic_hypotheses_satisfiable :
+  per_canon ex_knots 4 3 8 8.
+Proof. exact @ex_canon. Qed.
+Print Assumptions C04_periodic_hypotheses_satisfiable.
+
